@@ -180,9 +180,47 @@ Proof.
     apply G. auto.
 Qed.
 
+(* the same for LabelRestrictions over any intersection/union functions, in particular the faithful ones *)
+Section GenNodup.
+  Variable inter union : list bytes -> list bytes -> list bytes.
+
+  Lemma nodup_and_merge_g : forall op lr, NoDup (map fst lr) -> NoDup (map fst (and_merge_g inter lr op)).
+  Proof.
+    unfold and_merge_g. induction op as [|[ln r] op IH]; simpl; intros lr H; auto.
+    apply IH. apply nodup_bupd. auto.
+  Qed.
+
+  Lemma nodup_or_merge_g : forall op lr, NoDup (map fst lr) -> NoDup (map fst (or_merge_g union lr op)).
+  Proof.
+    unfold or_merge_g. induction lr as [|[ln r] lr IH]; simpl; intros H; auto. inversion H; subst.
+    rewrite map_app. unfold or_entry_g at 1.
+    destruct (r_present r && r_present (odflt r_zero (blookup ln op)) || r_absent r && r_absent (odflt r_zero (blookup ln op))); simpl; auto.
+    constructor; auto. intros Hin. apply H2. apply in_map_iff in Hin. destruct Hin as [[k v] [E Hin]].
+    simpl in E. subst k. apply in_flat_map in Hin. destruct Hin as [[k' r'] [Hin1 Hin2]].
+    unfold or_entry_g in Hin2.
+    destruct (r_present r' && r_present (odflt r_zero (blookup k' op)) || r_absent r' && r_absent (odflt r_zero (blookup k' op))); [|contradiction].
+    destruct Hin2 as [Hin2|[]]. inversion Hin2; subst. apply (in_map fst) in Hin1. auto.
+  Qed.
+
+  Lemma restrictions_g_nodup : forall a, NoDup (map fst (restrictions_g inter union a)).
+  Proof.
+    induction a using ast_ind_nested; simpl; try (repeat constructor; simpl; tauto).
+    - destruct a; simpl; repeat constructor; simpl; tauto.
+    - assert (G : forall acc, NoDup (map fst acc) ->
+                 NoDup (map fst (fold_left (fun lr x => and_merge_g inter lr (restrictions_g inter union x)) xs acc))).
+      { clear H. induction xs as [|x xs IH]; simpl; intros acc Hacc; auto. apply IH. apply nodup_and_merge_g. auto. }
+      apply G. constructor.
+    - destruct xs as [|x xs]; [constructor|]. inversion H; subst.
+      assert (G : forall acc, NoDup (map fst acc) ->
+                 NoDup (map fst (fold_left (fun lr y => or_merge_g union lr (restrictions_g inter union y)) xs acc))).
+      { clear. induction xs as [|y xs IH]; simpl; intros acc Hacc; auto. apply IH. apply nodup_or_merge_g. auto. }
+      apply G. auto.
+  Qed.
+End GenNodup.
+
 (* whatever order the map behind sel.LabelRestrictions() is ranged in, the selector is classified the same way *)
-Theorem classify_order_free : forall a R', Permutation (restrictions a) R' -> classify_restr R' = classify a.
-Proof. intros. apply classify_restr_perm; auto. apply restrictions_nodup. Qed.
+Theorem classify_order_free : forall a R', Permutation (restrictions_f a) R' -> classify_restr R' = classify a.
+Proof. intros. apply classify_restr_perm; auto. apply restrictions_g_nodup. Qed.
 
 (* ---- AndNode / OrNode range over Go maps too: one merge step is order-free as a map *)
 Definition and_comb (base r : restr) : restr :=
